@@ -332,6 +332,34 @@ def op_moltext(text: str):
     return "MOLTEXT " + P.esc(text), guarded(run), info
 
 
+_FILE_DIR = None
+
+
+def op_file(text: str):
+    """graph_from_file on a `.mol` file holding `text` (UTF-8, written byte for byte: no newline translation on the way out);
+    the model gets the decoded content.  Returns None for the real result when the text cannot be encoded (lone surrogates)."""
+    global _FILE_DIR
+    info = {}
+    try:
+        data = text.encode("utf-8")
+    except UnicodeEncodeError:
+        return "FILE " + P.esc(text), None, info
+    if _FILE_DIR is None:
+        import atexit, shutil, tempfile
+        _FILE_DIR = tempfile.mkdtemp(prefix="tucan_verif_files_")
+        atexit.register(shutil.rmtree, _FILE_DIR, True)
+
+    def run():
+        import os
+        fp = os.path.join(_FILE_DIR, "m.mol")
+        with open(fp, "wb") as fh:
+            fh.write(data)
+        g = MR.graph_from_file(fp)
+        info["graph"] = g
+        return P.show_graph(g)
+    return "FILE " + P.esc(text), guarded(run), info
+
+
 def op_splice(lines: list[str]):
     return " ".join(["SPLICE"] + P.enc_str_list(lines)), guarded(
         lambda: P.show_str_list(V3._concat_lines_with_dash(list(lines))))
